@@ -96,7 +96,13 @@ func TestC15Isolation(t *testing.T) {
 	rt.Check(t, rt.N(200, 1500), func(t *rapid.T) {
 		mangle := rapid.Bool().Draw(t, "mangle")
 		storage := rapid.SampledFrom([]string{"zstd", "uncompressed"}).Draw(t, "storage")
-		s, err := stack.New(stack.Opts{Storage: storage, Mangle: mangle})
+		// (the gRPC front end takes another path to the action cache when its
+		// dependency check is switched off)
+		noDeps := rapid.IntRange(0, 2).Draw(t, "grpcDepsCheckOff") == 0
+		if noDeps {
+			E.Label("grpc-ac-deps-check=off")
+		}
+		s, err := stack.New(stack.Opts{Storage: storage, Mangle: mangle, NoDepsCheck: noDeps})
 		if err != nil {
 			t.Fatal(err)
 		}
